@@ -308,7 +308,10 @@ def h_suplink(ctx):
         sec = fname + [0] + ctx.bytes('buildid', 20)
         extra = [('.gnu_debugaltlink', sec)]
     data_main, _ = _image(ctx, 64, little, 'plain', info, ab, extra=extra)
-    data_sup, _ = _image(ctx, 64, little, 'plain', info, ab)
+    # the supplementary file may itself use any of the three containers
+    supc = cfg.get('sup_container', 'plain')
+    data_sup, pairs = _image(ctx, 64, little, supc, info, ab, comp_name='s')
+    ctx.use_zlib_model(pairs)
     calls = []
 
     def loader(path):
@@ -325,6 +328,8 @@ def h_suplink(ctx):
         if ctx.fork(designates):
             ctx.check_eq('suplink/loader-called-with-the-encoded-name', calls, [ctx.mkbytes(fname)])
             ctx.check('suplink/supplementary-attached', di.supplementary_dwarfinfo is not None)
+            if di.supplementary_dwarfinfo is not None:
+                ctx.check_eq('suplink/supplementary-content', list(di.supplementary_dwarfinfo.debug_info_sec.stream.getvalue()), list(info))
         else:
             ctx.check_eq('suplink/is-supplementary-file-itself/no-call', calls, [])
             ctx.check('suplink/none', di.supplementary_dwarfinfo is None)
@@ -363,6 +368,7 @@ HARNESSES = [
       desc='line-table directory and file names stored in the supplementary file (DW_FORM_strp_sup / DW_FORM_GNU_strp_alt in a v5 header) resolve through the supplementary '
            'string table, next to names of the same header kept in .debug_str / .debug_line_str (harness shared with C05)'),
     H('h11_5_suplink', h_suplink, lambda tier: [dict(kind=k, little=l, namelen=n, follow=f, loader=ld) for k in ('debug_sup', 'gnu_debugaltlink') for l in (True, False) for n in (1, 4)
-                                                for (f, ld) in ((True, True), (False, True), (True, False))], expect=('ok',),
+                                                for (f, ld) in ((True, True), (False, True), (True, False))] +
+                                               [dict(kind=k, little=l, namelen=2, follow=True, loader=True, sup_container=c) for k in ('debug_sup', 'gnu_debugaltlink') for l in (True, False) for c in ('gabi', 'zdebug')], expect=('ok',),
       desc='.debug_sup (is_supplementary symbolic) / .gnu_debugaltlink: file name parsed, supplementary file loaded through the loader only when follow_links and a loader exist'),
 ]
